@@ -3,13 +3,6 @@
    implementation produced.  Evaluated by vm_compute inside cases_*.v files written by bin/check. *)
 From Rosmar Require Import Base Hlc.
 
-Fixpoint find_bad_from {A} (f : A -> bool) (i : N) (l : list A) : list N :=
-  match l with
-  | [] => []
-  | x :: r => if f x then find_bad_from f (i + 1) r else i :: find_bad_from f (i + 1) r
-  end.
-Definition find_bad {A} (f : A -> bool) (l : list A) : list N := find_bad_from f 0 l.
-
 Fixpoint list_eqb {A} (eqb : A -> A -> bool) (a b : list A) : bool :=
   match a, b with
   | [], [] => true
